@@ -14,6 +14,20 @@ thread_local! {
     static CROSS_CMPS: Cell<u64> = const { Cell::new(0) };
     static SAME_CMPS: Cell<u64> = const { Cell::new(0) };
     static AT_EXPIRY: Cell<Option<u64>> = const { Cell::new(None) };
+    /// cross comparisons at the previous probe, and the largest number of cross comparisons between two consecutive probes
+    static LAST_PROBE_AT: Cell<u64> = const { Cell::new(0) };
+    static MAX_PROBE_GAP: Cell<u64> = const { Cell::new(0) };
+}
+
+fn on_probe() {
+    let now = cross_cmps();
+    let gap = now - LAST_PROBE_AT.with(|c| c.get());
+    LAST_PROBE_AT.with(|c| c.set(now));
+    MAX_PROBE_GAP.with(|c| c.set(c.get().max(gap)));
+}
+/// largest number of cross comparisons between two consecutive deadline probes (and before the first one) of the last run
+pub fn max_probe_gap() -> u64 {
+    MAX_PROBE_GAP.with(|c| c.get())
 }
 
 fn on_expiry() {
@@ -28,6 +42,8 @@ pub fn reset_counters() {
     CROSS_CMPS.with(|c| c.set(0));
     SAME_CMPS.with(|c| c.set(0));
     AT_EXPIRY.with(|c| c.set(None));
+    LAST_PROBE_AT.with(|c| c.set(0));
+    MAX_PROBE_GAP.with(|c| c.set(0));
 }
 pub fn cross_cmps() -> u64 {
     CROSS_CMPS.with(|c| c.get())
@@ -235,6 +251,8 @@ pub struct Outcome {
     pub same_cmps: u64,
     pub probes: u64,
     pub at_expiry: Option<u64>,
+    /// most cross comparisons between two consecutive deadline probes (0 without a deadline)
+    pub max_probe_gap: u64,
 }
 impl Outcome {
     pub fn show(&self) -> String {
@@ -408,6 +426,7 @@ pub fn with_world<T>(dl: Option<u64>, repair: bool, f: impl FnOnce(Option<std::t
         Some(k) => {
             verif_hooks::install_clock(k);
             verif_hooks::set_expiry_callback(Some(on_expiry));
+            verif_hooks::set_probe_callback(Some(on_probe));
             Some(std::time::Instant::now())
         }
         None => {
@@ -419,6 +438,7 @@ pub fn with_world<T>(dl: Option<u64>, repair: bool, f: impl FnOnce(Option<std::t
     let probes = if dl.is_some() { verif_hooks::probes() } else { 0 };
     verif_hooks::clear_clock();
     verif_hooks::set_expiry_callback(None);
+    verif_hooks::set_probe_callback(None);
     verif_hooks::set_repair_swap(false);
     (r.ok(), cross_cmps(), same_cmps(), probes)
 }
@@ -437,9 +457,10 @@ pub fn run_case(c: &Case) -> Outcome {
         }
     });
     let at_expiry = cmps_at_expiry();
+    let max_probe_gap = max_probe_gap();
     match r {
-        None => Outcome { status: Status::Panic, trace: vec![], cmps, same_cmps: same, probes, at_expiry },
-        Some((Ok(()), trace)) => Outcome { status: Status::Ok, trace, cmps, same_cmps: same, probes, at_expiry },
-        Some((Err(HookErr), trace)) => Outcome { status: Status::HookErr, trace, cmps, same_cmps: same, probes, at_expiry },
+        None => Outcome { status: Status::Panic, trace: vec![], cmps, same_cmps: same, probes, at_expiry, max_probe_gap },
+        Some((Ok(()), trace)) => Outcome { status: Status::Ok, trace, cmps, same_cmps: same, probes, at_expiry, max_probe_gap },
+        Some((Err(HookErr), trace)) => Outcome { status: Status::HookErr, trace, cmps, same_cmps: same, probes, at_expiry, max_probe_gap },
     }
 }
